@@ -123,6 +123,64 @@ func checkC17(c *Ctx) {
 			}
 		}
 	}
+	// joined results (an inlined or (value, found, err) helper): the returned vector and error are phis;
+	// judge them per feasible path
+	for _, fn := range c.funcsOfPkg(pk) {
+		for _, r := range returnsOf(fn) {
+			if len(r.Results) != 2 || len(fn.Blocks) == 0 {
+				continue
+			}
+			type seenKey struct {
+				f    *types.Var
+				path string
+			}
+			done := map[seenKey]bool{}
+			for _, tup := range resultTuples(r) {
+			res0, res1, atBlock := tup[0].Val, tup[1].Val, tup[0].At.Block()
+			_, p0 := stripConv(res0).(*ssa.Phi)
+			_, p1 := stripConv(res1).(*ssa.Phi)
+			if !p0 && !p1 {
+				continue
+			}
+			walkThreaded(pstate{b: fn.Blocks[0]}, func(st pstate) bool {
+				if st.b != atBlock {
+					return true
+				}
+				v0, v1 := st.resolve(res0), st.resolve(res1)
+				if !isNilConst(v1) {
+					return true
+				}
+				f, base := loadedField(v0)
+				if f != fSummary && f != fHistogram {
+					return true
+				}
+				want := accessPath(base) + "." + f.Name()
+				tested := false
+				for _, fa := range st.facts {
+					if fa.v == nil || !fa.truth {
+						continue
+					}
+					if xf, xb := loadedField(stripConv(fa.v)); xf != nil && accessPath(xb)+"."+xf.Name() == want {
+						tested = true
+					}
+				}
+				k := seenKey{f, want}
+				if done[k] && tested {
+					return true
+				}
+				if !done[k] {
+					n1++
+				}
+				done[k] = true
+				key := c.fnKey(fn) + ":" + f.Name()
+				c.sawFunc(c.fnKey(fn))
+				c.check(tested, "O1 union-nil", key, r.Pos(), "the cached entry's "+f.Name()+" variant is tested non-nil before it is returned with a nil error",
+					"a cached timer entry's "+f.Name()+" vector is returned with a nil error without testing that this variant is set: when the name was registered as the other kind (summary vs histogram) the caller dereferences nil - a panic even with a non-panicking error callback", c.describe(r))
+				return true
+			}, nil)
+			}
+		}
+	}
 	c.floor("O1 union-nil", n1, 2)
 
 	// ---- O2 allocators --------------------------------------------------------------------------
@@ -203,7 +261,7 @@ func (c *Ctx) checkPromAllocator(rule string, fn *ssa.Function, fOnErr *types.Va
 	}
 	for _, cb := range cbs {
 		errArg := cb.(*ssa.Call).Call.Args[0]
-		if guardedByEdge(cb, nilTest(errArg)) == nil {
+		if guardedByEdge(cb, nilTest(errArg)) == nil && !provablyNonNil(errArg, 3) {
 			fail(cb.Pos(), ":callback", "the error callback is not restricted to err != nil", c.describe(cb))
 		}
 		// after the callback every path returns the no-op metric
@@ -650,8 +708,34 @@ func (c *Ctx) checkPromObservations(rule string) {
 					}
 					if iff, isIf := condOf(lp.Header); isIf && zero && step {
 						op, x, y, isCmp := cmpOf(iff.Cond)
+						if isCmp && op == token.GTR {
+							x, y, op = y, x, token.LSS
+						}
 						if isCmp && op == token.LSS && x == ssa.Value(phi) && canon(y) == ssa.Value(fn.Params[1]) {
 							okLoop = true
+						}
+					}
+					// counting down: n = samples; n > 0; n-- runs max(samples, 0) times as well
+					fromParam, down := false, false
+					for _, e := range phi.Edges {
+						if canon(e) == ssa.Value(fn.Params[1]) {
+							fromParam = true
+						}
+						if bo, isB := e.(*ssa.BinOp); isB && bo.X == ssa.Value(phi) {
+							if k, isK := constInt(bo.Y); isK && ((bo.Op == token.SUB && k == 1) || (bo.Op == token.ADD && k == -1)) {
+								down = true
+							}
+						}
+					}
+					if iff, isIf := condOf(lp.Header); isIf && fromParam && down && len(phi.Edges) == 2 {
+						op, x, y, isCmp := cmpOf(iff.Cond)
+						if isCmp && op == token.LSS {
+							x, y, op = y, x, token.GTR
+						}
+						if isCmp && x == ssa.Value(phi) {
+							if k, isK := constInt(y); isK && ((op == token.GTR && k == 0) || (op == token.GEQ && k == 1)) {
+								okLoop = true
+							}
 						}
 					}
 				}
@@ -852,6 +936,30 @@ func (c *Ctx) checkPromConfig(rule string) {
 		}
 		collect(st.Val, st.Block(), 4)
 		for _, lf := range leaves {
+			// the programmatic callback as one of the joined leaves: committed on the `!= nil` edge
+			if f2, _ := loadedField(lf.v); f2 == fCfgOptErr {
+				for _, b := range fn.Blocks {
+					iff, isIf := condOf(b)
+					if !isIf {
+						continue
+					}
+					op, x, y, okc := cmpOf(iff.Cond)
+					if !okc || !isNilConst(y) {
+						continue
+					}
+					if xf, _ := loadedField(stripConv(x)); xf != fCfgOptErr {
+						continue
+					}
+					idx := 1
+					if op == token.NEQ {
+						idx = 0
+					}
+					if edgeDominates(b, idx, lf.at) || b.Succs[idx] == lf.at || b == lf.at {
+						progWins = true
+					}
+				}
+				continue
+			}
 			var cb *ssa.Function
 			switch v := lf.v.(type) {
 			case *ssa.MakeClosure:
